@@ -183,11 +183,90 @@ def _run_hdredit(case):
     return {"cmp": {"hdredit": True}, "extra": out}
 
 
+PARENT = {"gdc-1.0.0-public": "gdc-1.0.0-protected", "gdc-1.0.1-public": "gdc-1.0.1-protected",
+          "gdc-1.0.0-aliquot-merged-masked": "gdc-1.0.0-aliquot-merged", "gdc-2.0.0-aliquot-merged-masked": "gdc-2.0.0-aliquot-merged"}
+
+
+def _warm_parent(case):
+    """the same fields parsed first, in the same interpreter, under the unmasked layout the masked one derives from
+    (what a pipeline does that reads the protected file and then the public one)"""
+    from maflib.record import MafRecord
+    from maflib.validation import ValidationStringency
+    par = PARENT.get(case.get("annot"))
+    if not par or case.get("kind") != "line":
+        return
+    ps = G._scheme_for(par)
+    own = [n for n, _ in SP.layout(case["annot"])["columns"]]
+    if len(case["fields"]) != len(own):
+        return
+    by = dict(zip(own, case["fields"]))
+    line = "\t".join(by.get(n, "") for n in ps.column_names())
+    try:
+        MafRecord.from_line(line, scheme=ps, validation_stringency=ValidationStringency.Silent)
+    except Exception:
+        pass
+
+
+def _gen_lenmut(rng):
+    """a record read leniently (or silently) under a masked layout, one germline column then given a value in place,
+    offered to a Strict writer under the same layout"""
+    ma = rng.choice(sorted(PARENT))
+    cols = SP.layout(ma)["columns"]
+    fields = [G.valid_text(rng, d).replace("\t", " ").replace("\n", " ").replace("\r", " ") for _, d in cols]
+    gl = [i for i, (n, _) in enumerate(cols) if n in SP.GERMLINE6]
+    return {"kind": "lenmut", "annot": ma, "fields": fields, "read_mode": rng.choice([2, 2, 3, 1]), "col": rng.choice(gl),
+            "value": rng.choice(["A", "ACGT", "7"]), "mode": 1, "stream": "lenient-read-then-mutated", "hit": [0]}
+
+
+def _run_lenmut(case):
+    from maflib.header import MafHeader
+    from maflib.record import MafRecord
+    from maflib.validation import ValidationStringency, MafFormatException
+    from maflib.writer import MafWriter
+    scheme = G._scheme_for(case["annot"])
+    names = scheme.column_names()
+    out = {"raised": None, "file_germline": [], "parsed": False}
+    try:
+        rec = MafRecord.from_line("\t".join(case["fields"]), scheme=scheme,
+                                  validation_stringency=getattr(ValidationStringency, G.MODES[case["read_mode"]]))
+    except Exception as e:
+        out["raised"] = "parse:" + type(e).__name__
+        return {"cmp": {"lenmut": True}, "extra": out}
+    c = rec[case["col"]] if case["col"] < len(rec) else None
+    if c is None:
+        return {"cmp": {"lenmut": True}, "extra": out}
+    out["parsed"] = True
+    c.value = case["value"] if not case["value"].isdigit() or "count" not in names[case["col"]] else int(case["value"])
+    ver = SP.layout(case["annot"])["version"]
+    hdr = MafHeader.from_defaults(version=ver, annotation=case["annot"])
+    buf = G._Buf()
+    try:
+        w = MafWriter.from_fd(buf, hdr, validation_stringency=ValidationStringency.Strict)
+        try:
+            w += rec
+        finally:
+            w.close()
+    except MafFormatException:
+        out["raised"] = "MafFormatException"
+    except Exception as e:
+        out["raised"] = type(e).__name__
+    body = [l for l in buf.text().split("\n") if l and not l.startswith("#")]
+    for l in body[1:]:
+        fs = l.split("\t")
+        for i, n in enumerate(names):
+            if n in SP.GERMLINE6 and i < len(fs) and fs[i] != "":
+                out["file_germline"].append([n, fs[i]])
+    return {"cmp": {"lenmut": True}, "extra": out}
+
+
 def generate(rng, n):
     out = []
     for _ in range(n):
         r = rng.random()
-        if r < 0.05:
+        if r < 0.03:
+            out.append(_gen_lenmut(rng))
+            continue
+        if r < 0.07:
             out.append(_gen_hdredit(rng))
             continue
         if r < 0.12:
@@ -208,11 +287,11 @@ def corpus():
 
 
 def skip_compare(case):
-    return case["kind"] in ("readov", "hdredit") or G.model_dontcare(case)
+    return case["kind"] in ("readov", "hdredit", "lenmut") or G.model_dontcare(case)
 
 
 def shrink(case):
-    if case["kind"] == "hdredit":
+    if case["kind"] in ("hdredit", "lenmut"):
         return
     if case["kind"] == "readov":
         for i in range(len(case["rows"])):
@@ -223,11 +302,11 @@ def shrink(case):
 
 
 def to_model(case):
-    return [4] if case["kind"] in ("readov", "hdredit") else G.to_model(case)
+    return [4] if case["kind"] in ("readov", "hdredit", "lenmut") else G.to_model(case)
 
 
 def from_model(case, sx):
-    if case["kind"] in ("readov", "hdredit"):
+    if case["kind"] in ("readov", "hdredit", "lenmut"):
         return {case["kind"]: True}
     return G.from_model(case, sx)
 
@@ -235,7 +314,12 @@ def from_model(case, sx):
 def run_impl(case):
     if case["kind"] == "hdredit":
         return _run_hdredit(case)
-    return _run_readov(case) if case["kind"] == "readov" else G.run_impl(case)
+    if case["kind"] == "lenmut":
+        return _run_lenmut(case)
+    if case["kind"] == "readov":
+        return _run_readov(case)
+    _warm_parent(case)
+    return G.run_impl(case)
 
 
 def comparable(obs):
@@ -243,6 +327,14 @@ def comparable(obs):
 
 
 def oracle(case, obs):
+    if case["kind"] == "lenmut":
+        ex = obs["extra"]
+        out = []
+        if ex["file_germline"]:
+            out.append("strict-writer-emitted-germline-value | %s (record read in %s mode, then mutated)" % (ex["file_germline"][:2], G.MODES[case["read_mode"]]))
+        if ex["parsed"] and ex["raised"] not in ("MafFormatException",):
+            out.append("strict-writer-accepted-mutated-germline | raised=%s (record read in %s mode)" % (ex["raised"], G.MODES[case["read_mode"]]))
+        return out
     if case["kind"] == "hdredit":
         ex = obs["extra"]
         out = []
@@ -311,6 +403,8 @@ def signature(case, violation):
 
 
 def classify(case, obs):
+    if case["kind"] == "lenmut":
+        return "lenmut/%s/read=%s" % (case["annot"], G.MODES[case["read_mode"]])
     if case["kind"] == "hdredit":
         return "hdredit/%s/%s/prime=%s" % (case["to"], case["how"], case["prime"])
     if case["kind"] == "readov":
@@ -319,7 +413,7 @@ def classify(case, obs):
 
 
 def nontrivial(case, obs):
-    return bool(case.get("hit")) or case["kind"] in ("writeseq", "readov", "hdredit")
+    return bool(case.get("hit")) or case["kind"] in ("writeseq", "readov", "hdredit", "lenmut")
 
 
 def focus(changed):
